@@ -149,7 +149,9 @@ let check schedf obsf resf =
       let closers_returned = int_of_string (between final "returned") in
       let serve_nil = between final "servenil" = "1" in
       let hang = between final "hang" = "1" in
+      let late_start = between final "latestart" = "1" in
       if panicked then (incr ofail; Printf.fprintf oc "FAIL %s %s oracle a goroutine of the server panicked\n" id cls)
+      else if late_start then (incr ofail; Printf.fprintf oc "FAIL %s %s oracle a parser ran on an idle connection after Close had returned\n" id cls)
       else if closers_returned <> nc then (incr ofail; Printf.fprintf oc "FAIL %s %s oracle only %d of %d Close calls returned although no command handler was running (Close waits for a client that stopped sending / for a listener)\n" id cls closers_returned nc)
       else if not serve_nil then (incr ofail; Printf.fprintf oc "FAIL %s %s oracle a Serve call did not return nil after Close (its listener was left open / its accept loop still runs)\n" id cls)
       else if hang then (incr ofail; Printf.fprintf oc "FAIL %s %s oracle Close / Serve did not end within the time-out\n" id cls)
